@@ -72,6 +72,120 @@ def judge(chk, behaviours, res):
     return lost_total
 
 
+def kinds_arg():
+    """Numbering of the lazy writer's command kinds, read from the CURRENT source (a const block with iota)."""
+    import re
+    src = open(os.path.join(vlib.REPO, "pkg/persistence/lazy_aof.go")).read()
+    m = re.search(r"const \((.*?)\n\)", src[src.index("DefaultLazyFlushInterval ="):][-0:] if False else src[src.rindex("const (", 0, src.index("cmdFlush commandKind")):], re.S)
+    names = {"cmdFlush": "flush", "cmdSync": "sync", "cmdClose": "close", "cmdTruncate": "truncate", "cmdReplaceWith": "replace",
+             "cmdBeginSnapshot": "begin", "cmdEndSnapshot": "end", "cmdIsSnapshotActive": "isactive", "cmdErr": "err",
+             "cmdEndSnapshotReappend": "endreappend"}
+    idx, out = 0, []
+    for line in m.group(1).split("\n"):
+        line = line.split("//")[0].strip()
+        if not line:
+            continue
+        ident = re.match(r"([A-Za-z_]\w*)", line)
+        if not ident:
+            continue
+        if ident.group(1) in names:
+            out.append("%d=%s" % (idx, names[ident.group(1)]))
+        elif ident.group(1).startswith("cmd"):
+            raise Infra("unknown lazy writer command %s: harness outdated" % ident.group(1))
+        idx += 1
+    if len(out) < 9:
+        raise Infra("could not read the command kinds from lazy_aof.go")
+    return ",".join(out)
+
+
+TRACE_MC = """---- MODULE MC_TraceWriter ----
+EXTENDS Trace_Writer
+c_TClients == {%s}
+====
+"""
+
+
+def validate_trace(path, clients):
+    mc = TRACE_MC % ", ".join('"%s"' % c for c in clients)
+    cfg = make_cfg("TraceSpec", {"Clients": "<- c_TClients", "MaxVer": 1000000, "MaxAdmin": 1000000, "MaxFlush": 1000000,
+                                 "Barrier": "FALSE", "CloseWaits": "FALSE"},
+                   ["TInv_Conservation", "TInv_NoAckedLoss"], [], constraint="HighWater", postcondition="TraceAccepted")
+    r = run_tlc("MC_TraceWriter", "t.cfg", cfg_text=cfg, extra_files={"MC_TraceWriter.tla": mc}, workers=1, timeout=600,
+                dfs=True, env_extra={"TRACE": path})
+    return r
+
+
+def record_and_validate(chk, n, rng):
+    """Backward conformance: record n traces of the real write path under unforced load and let TLC
+    explain each of them with Trace_Writer.tla."""
+    import subprocess, concurrent.futures
+    binary = vlib.build_harness()
+    kinds = kinds_arg()
+    d = vlib.scratch("wtrace-")
+    jobs = []
+    for i in range(n):
+        nc = rng.choice([2, 2, 3])
+        jobs.append({"i": i, "clients": nc, "versions": rng.choice([3, 5, 8]), "admin": rng.choice([1, 2, 3]),
+                     "seed": rng.randrange(1 << 30), "close_early": rng.random() < 0.35})
+    results = []
+
+    def one(job):
+        path = os.path.join(d, "t%d.ndjson" % job["i"])
+        argv = [binary, "wtrace", "-out", path, "-clients", str(job["clients"]), "-versions", str(job["versions"]),
+                "-admin", str(job["admin"]), "-seed", str(job["seed"]), "-kinds", kinds]
+        if job["close_early"]:
+            argv.append("-close-early")
+        env = dict(os.environ, TMPDIR=d)
+        p = subprocess.run(argv, capture_output=True, text=True, env=env, timeout=120)
+        if p.returncode == 3:
+            return job, "hang", p.stderr[-500:], None
+        if p.returncode != 0:
+            return job, "error", "rc=%d %s" % (p.returncode, p.stderr[-500:]), None
+        events = [json.loads(l) for l in open(path)]
+        r = validate_trace(path, ["c%d" % (k + 1) for k in range(job["clients"])])
+        return job, ("accepted" if r.ok else "rejected"), r, events
+
+    try:
+        with concurrent.futures.ThreadPoolExecutor(max_workers=6) as ex:
+            for job, status, info, events in ex.map(one, jobs):
+                results.append((job, status, info, events))
+    finally:
+        import shutil
+        shutil.rmtree(d, ignore_errors=True)
+    accepted = 0
+    nevents = 0
+    for job, status, info, events in results:
+        if status == "accepted":
+            accepted += 1
+            nevents += len(events)
+            chk.cov["states"] += info.distinct
+            chk.cov["transitions"] += info.generated
+        elif status == "rejected":
+            rej = (info.printed.get("REJECTED") or [{}])[0]
+            if info.violated:
+                what = "recorded trace violates %s of Writer.tla" % info.violated
+            else:
+                what = "recorded trace of the real write path is not a behaviour of Writer.tla: first unexplained event #%s of %s: %s" % (
+                    rej.get("at"), rej.get("of"), json.dumps(rej.get("ev")))
+            div = {"kind": "trace_rejected", "op": {"op": "trace"}, "diff": [what]}
+            kf = vlib.match_known(PROP, div, None)
+            if kf:
+                chk.known.append((kf["id"], kf["what"]))
+            else:
+                chk.violation(what + "\nrecorder parameters: %s" % json.dumps(job), {"property": PROP, "checker": "wtrace", "job": job, "events": events,
+                                                                                   "rejected": rej, "violated": info.violated})
+        elif status == "hang":
+            chk.violation("a client or admin call did not return within 20 s after Close: " + str(info),
+                          {"property": PROP, "checker": "wtrace", "job": job, "hang": True})
+        else:
+            chk.infra.append("trace recorder failed: %s" % info)
+    chk.cov["recorded_traces"] = len(results)
+    chk.cov["recorded_traces_accepted"] = accepted
+    chk.cov["recorded_events"] = nevents
+    chk.cov["traces_validated_against_impl"] += accepted
+    return accepted
+
+
 def replay_file(path):
     rec = json.load(open(path))
     binary = vlib.build_harness()
@@ -121,6 +235,8 @@ def run(tier):
     chk.cov["samples"] = [[(o["a"], o["c"]) for o in b["ops"]] for b in behaviours[:3]]
     chk.cov["schedules_with_loss_on_real_code"] = lost
     chk.cov["forced_steps"] = forced
+    # 3. backward conformance: traces of unforced concurrent load validated by TLC
+    record_and_validate(chk, 10 if quick else 150, rng)
     chk.assumptions += [
         "steps internal to the lazy writer goroutine (Recv, Tick) are not forced; the real scheduler places them",
         "each client owns one KV key; versions are the values written",
